@@ -47,8 +47,8 @@ class Session:
         self.nontrivial = set()
 
     # ------------------------------------------------------------------
-    def fail(self, prop, clause, detail):
-        self.violations.append({"prop": prop, "clause": clause, "step": self.step, "detail": str(detail)[:600]})
+    def fail(self, prop, clause, detail, sig=""):
+        self.violations.append({"prop": prop, "clause": clause, "step": self.step, "detail": str(detail)[:600], "sig": sig})
         raise Stop()
 
     # ------------------------------------------------------------------
@@ -189,10 +189,6 @@ class Session:
             seen.update(kids)
         if seen != set(names):
             self.fail("C14", "tree-vs-params-names", "tree %s params %s" % (sorted(seen ^ set(names))[:6], len(names)))
-        for key in ("phase_conf", "groups", "rails"):
-            reg = doc["system"].get(key, {})
-            if set(reg) != set(names):
-                self.fail("C14", "registry-keys", "%s keys differ from component names by %s" % (key, sorted(set(reg) ^ set(names))[:6]))
 
     # ------------------------------------------------------------------
     def build_fresh(self, order_seed=None):
@@ -306,6 +302,7 @@ class Session:
         self.stats["edit_ok" if accepted else "edit_rej"] += 1
         if werr and not accepted and "Warning" in res[1]:
             self.stats["fault_fired:warnings_as_errors"] += 1
+            self.stats["warnings_as_errors"] += 1
         if accepted:
             self.dirty = True
             if reason:
@@ -410,6 +407,8 @@ class Session:
                 return None
             if k == "set_comp_phases":
                 if op["name"] not in m.comps:
+                    if m.resolve(op["name"]) is not None:
+                        return None  # rail-valued target: no opinion (takes effect on the owner if accepted)
                     return "unknown target"
                 if not isinstance(op["conf"], (dict, list)):
                     return "bad conf type"
@@ -437,7 +436,7 @@ class Session:
             elif k == "set_sys_phases":
                 m.set_sys_phases(op["phases"])
             elif k == "set_comp_phases":
-                m.set_comp_phases(op["name"], op["conf"])
+                m.set_comp_phases(m.resolve(op["name"]) or op["name"], op["conf"])
         except Exception as e:
             # The SUT accepted something the model cannot express: the C14
             # invariants on the SUT's own reports decide; the model is lost.
